@@ -62,6 +62,6 @@ LEVEL_NOTE = ("Unit-wise: from_file adds no handler, so the escape set of the wh
               "TS exponents <64 as in the property. Trusted: S1 (format stubs), S3, S4, S7'.")
 TECHNIQUE = CH_TECH + " used as exception-escape analysis"
 EXPLANATION = "see obligation_table"
-BOUNDS = "<=4/5 framing lines from 10 shapes; <=3 data per builder; ints in [0,1e8); exponents <64"
+BOUNDS = "<=4/5 framing lines from 10 shapes; <=3 data per builder; ints in [0,1e8); exponents <64; real-line sync sections of 2-3 lines from 12 shapes; charts with 0-4 tracks rendered"
 OUTSIDE = "timedelta overflow beyond the 8-digit bound; texts longer than the unit bounds (units compose without handlers)"
 ASSUMPTIONS = [S1, S3, S4, S5]
